@@ -513,6 +513,16 @@ func (repo *Repository) sendBranchUpdate(branch, previousLongest *Branch) error 
 	height := branchHeight + 1
 	latestHeight := branch.Height()
 
+	// After a consolidation a branch can repeat headers of its parent above the point where it
+	// links to it. Those are already part of the previous chain so the update starts above them.
+	for ; height <= latestHeight; height++ {
+		item := branch.AtHeight(height)
+		previous := previousLongest.AtHeight(height)
+		if item == nil || previous == nil || !item.Hash.Equal(&previous.Hash) {
+			break
+		}
+	}
+
 	for ; height <= latestHeight; height++ {
 		item := branch.AtHeight(height)
 		if item == nil {
